@@ -1,9 +1,25 @@
-HOOK_COMMITS = ["35ab1c0"]
+HOOK_COMMITS = ["35ab1c0", "1b45154"]
 NOTES = ("All checks: ./check.sh <id> <tier>. Each run regenerates coq/Gen from /repo, rebuilds the proofs (full .vo), "
          "rebuilds the Go harness from /repo's working tree, runs the real code on generated cases and evaluates the Coq model on "
          "the same cases. Trusted base and per-property limits: DESIGN.md sections 4 and 6, and each evidence file.")
 NOT_YET = {}
 CHECKS = {
+    "C01": {
+        "text": "Theorems (Props/C01.v, 41) for every serialisable object (Field, Transaction, User, FileNameWithInfo, file path, FileHeader, "
+                "FileResumeData, FlatFileInformationFork, flattenedFileObject, NewsArtList, NewsArtListData, NewsCategoryListData15, "
+                "TrackerRegistration, Account): (layout) the encoder as coded emits exactly the reference layout transcribed from the protocol "
+                "document, for all well-formed values; (prefixes) an independent reference decoder that trusts every length/size/count prefix "
+                "recovers the object from layout ++ arbitrary trailing bytes, so every prefix equals what follows; (roundtrip) the Go decoder as "
+                "coded (Write/Unmarshal/ReadFrom, with its Err/Panic outcomes) inverts the Go encoder; (drain) for EVERY Read method the "
+                "translator finds in package hotline and every script of buffer sizes >= 1, the drained bytes are the buffer and the drain ends "
+                "within |buf|+1 reads - stated over the reader shapes regenerated from the source on each run. Correspondence: random "
+                "well-formed objects (lengths biased to 0,1,254-256,505-520,max) drained by scripted buffer sizes, io.ReadAll and io.Copy; "
+                "Go encode->Go decode round trips; single-mutation malformed inputs (truncation, bit flip, trailing bytes) with outcome class "
+                "Ok/Err/Panic compared to the model.",
+        "note": "Trusted: Coq kernel; translator (reader shapes; unknown shape => obligation fails); hand-written layouts from the PDF; "
+                "harness. Assumes fresh objects (readOffset 0) and cap == len for decoder inputs; FilePath.Write modelled below 3.5 KB of path data. No axioms.",
+        "technique": "Coq proof (round-trip/layout theorems, drain theorem over translator-generated reader shapes) + differential correspondence check",
+    },
     "C06": {
         "text": "Theorems (Props/C06.v) over the Gallina model of the amplification loop of HandleNewUser / HandleUpdateUser-create and of "
                 "HandleDisconnectUser: for ALL creator bitmaps and request field contents the created account holds copy8(request) and "
